@@ -60,12 +60,21 @@ def gen(rng, tier):
     # "equals byte for byte what the client sent" under a disk write fault while the body is saved (mode X of the
     # shared harness, see props/c10.py): the handler must never be handed a shortened body
     import c10 as _c10
-    for L in (200, 7000, 70000):
-        for lim in (0, 4096, L - 1):
+    faults = []
+    for L in (200, 7000, 70000, 131073):
+        for lim in (0, 4096, 65536, L - 1):
             if lim < L:
                 for declared in (True, False):
-                    cases.append("X 100 ok %d %s" % (lim, _c10.upload("/g%d" % (L + 5), L, L, declared, False, rng.randint(1, 10**6), False)))
-    return cases
+                    faults.append("X 100 ok %d %s" % (lim, _c10.upload("/g%d" % (L + 5), L, L, declared, False, rng.randint(1, 10**6), False)))
+    # the cases of one run are served by ONE process: a transfer that died with a write error is followed by
+    # ordinary uploads (state kept across transfers -- a recycled copy buffer, say -- must not leak into them)
+    mixed = []
+    for i, fcase in enumerate(faults):
+        mixed.append(fcase)
+        for (L, declared) in ((7000, True), (300, False), (70000, i % 2 == 0)):
+            # an ordinary upload saved to disk right after the faulty one (annotated like a grid cell: S M L declared kind body)
+            mixed.append(cell(100, L + 5, L, declared, False, "ok", "g", 1000 + i))
+    return cases + mixed
 
 import c04 as _c04
 corr_equal = _c04.corr_equal
